@@ -17,6 +17,6 @@ def emit(mod, fn, *args):
 
 
 import gen_c06
-emit("gen_c06", gen_c06.generate, 5 if thorough else 3)
+emit("gen_c06", gen_c06.generate, 5 if thorough else 4)
 import gen_c05
 emit("gen_c05", gen_c05.generate, thorough)
